@@ -139,7 +139,7 @@ def gen_plan(seed, cfg):
         'write_cap': r.choice([0, 0, 0, 16, 100, 5000]),
         'rewrites': r.random() < 0.3,
         'reuse_entry_obj': r.random() < 0.4,
-        'quanta': r.choice(['mixed', 'mixed', 'fine', 'coarse']),
+        'quanta': r.choice(['mixed', 'mixed', 'fine', 'coarse', 'rare']),
     }
     swarm.update(cfg.get('swarm', {}))
     n_wb = r.choice([2, 2, 3, 4])
@@ -373,12 +373,17 @@ def execute(plan, ctx, want_trace=False):
         disk.put(w['path'], data[i][0])
         vmap[(w['path'], disk.versions[w['path']])] = 0
     sch_cfg = plan['schedule']
-    quanta = {'mixed': None, 'fine': [1, 1, 1, 2, 3], 'coarse': [50, 200, 1000]}[sch_cfg.get('quanta', 'mixed')]
+    # 'rare': a handful of pre-emptions per translation at uniformly random depths, long undisturbed runs in
+    # between (PCT-style) - finds races that need ONE switch at the right place and then a long stretch of the
+    # other client, which short quanta almost never produce
+    quanta = {'mixed': None, 'fine': [1, 1, 1, 2, 3], 'coarse': [50, 200, 1000],
+              'rare': [300, 1000, 3000, 10000, 30000]}[sch_cfg.get('quanta', 'mixed')]
     S = sched.Scheduler(n_clients, sch_cfg['mode'], seed=sch_cfg['seed'], explicit=sch_cfg.get('explicit'),
                         lib_prefix=os.path.join(core.REPO, 'excel2pycl') + os.sep,
                         opcode_files=OPCODE_FILES if sch_cfg.get('opcode') else (), quanta=quanta)
     faults = copy.deepcopy(plan['faults'])
     records = [[] for _ in range(n_clients)]
+    torn = [0, 0]
 
     def client(c):
         def body():
@@ -413,6 +418,16 @@ def execute(plan, ctx, want_trace=False):
                     rec['out'] = _outcome(lambda: (parser.write_translation(op['out']), None)[1])
                     b = disk.get(op['out'])
                     rec['file'] = None if b is None else [hashlib.sha256(b).hexdigest(), len(b)]
+                    if b and rec['out'][0] == 'oserror' and any(k in ('write_err', 'close_err') for k in st['fired']):
+                        # informational only (DESIGN section 5): write_translation writes the final path in place, so an
+                        # interrupted write leaves a prefix; is that prefix still a loadable module defining fewer cells?
+                        # No property promises atomic replacement, so this is counted, never reported.
+                        torn[0] += 1
+                        try:
+                            compile(b.decode('utf-8', 'replace'), '<torn>', 'exec')
+                            torn[1] += 1
+                        except SyntaxError:
+                            pass
                 elif kind == 'rewrite':
                     w = plan['workbooks'][op['wb']]
                     disk.put(w['path'], data[op['wb']][op['version']])
@@ -444,6 +459,10 @@ def execute(plan, ctx, want_trace=False):
 
     # ---- oracle (post hoc, over the recorded history)
     mism, feats = _check(plan, records, ctx, probe, sets, disk)
+    if torn[0]:
+        probe('torn_output_file_left_by_failed_write', torn[0])
+    if torn[1]:
+        probe('torn_output_file_is_still_a_loadable_module', torn[1])
     if n_switches and S.mode == 'line':
         probe('line_level_context_switches', n_switches)
     if any(sched.in_lazy_window(l) for l in S.locs):
